@@ -17,10 +17,12 @@ import (
 var (
 	vKeys   []*ecdsa.PrivateKey
 	vEdKeys []ed25519.PrivateKey
+	vMemo   map[string][]byte // native only: (owner, message) -> signature, so that "the same
+	// signature again" means the same bytes although real ECDSA signing is randomised
 )
 
 // VResetKeys forgets all keys (called at the start of every harness run).
-func VResetKeys() { vKeys, vEdKeys = nil, nil }
+func VResetKeys() { vKeys, vEdKeys, vMemo = nil, nil, nil }
 
 // VKey returns the ECDSA key of owner i (0-based).
 func VKey(i int, symbolic bool) *ecdsa.PrivateKey {
@@ -134,9 +136,17 @@ func VSignAs(owner int, nkeys int, msg []byte, symbolic bool, ed bool) []byte {
 	if ed {
 		return ed25519.Sign(VEdKey(owner, false), msg)
 	}
+	key := string([]byte{byte(owner)}) + string(msg)
+	if s, ok := vMemo[key]; ok {
+		return s
+	}
 	s, err := ecdsa.SignASN1(rand.Reader, VKey(owner, false), d[:])
 	if err != nil {
 		panic(err)
 	}
+	if vMemo == nil {
+		vMemo = map[string][]byte{}
+	}
+	vMemo[key] = s
 	return s
 }
